@@ -106,6 +106,9 @@ public:
         if (!approx && p != "C09") { o.core_sat_pm = 30; o.multi_pm = 40; }
         if (approx) o.hubs_pm = p == "C06" ? 300 : 150;
         if (p != "C09") { o.boundary_pm = prop == "C07" ? 25 : 8; o.boundary_max_n = 129; }
+        if (p != "C09") o.dense_pm = approx ? 3 : 5;
+        if (p != "C09") o.subdiv_pm = approx ? 4 : 10;
+        if (!approx && p != "C09") { o.mid_pm = p == "C02" ? 400 : 250; o.two_level_pm = 200; o.small_dense_pm = 50; }      // 13..17 vertices, nearly complete: dimension 60..120, candidate lists in the hundreds
         gen::GGraph g = gen::gen_graph(rng, o);
         Json cs = Json::object();
         cs["graph"] = gen::to_json(g);
@@ -115,7 +118,9 @@ public:
             k = (int) rng.pick(std::vector<int> { 1, 1, 1, 2, 2, 2, 3, 3, 4, 5 });
             if (g.family == "hubs") k = (int) rng.pick(std::vector<int> { 2, 2, 2, 3 });    // 2k-1 hops just cover the light gadgets
             if (p == "C06" && rng.chance(80)) k = 0;
-        } else cs["entry"] = EXACT[rng.below(3)];
+        } else { cs["entry"] = EXACT[rng.below(3)]; if ((g.family == "small_dense" || g.family == "mid") && rng.chance(p == "C02" ? 700 : 500)) cs["entry"] = "signed"; }
+        if (g.family == "subdivided" && g.n > 90 && !approx && cs["entry"].as_str() == "iso_trees") cs["entry"] = rng.chance(500) ? "signed" : "fvs_trees";   // iso_trees: ~n^3 under ASan
+        if (g.family == "subdivided" && g.n > 90 && approx && cs["entry"].as_str() == "approx_iso_trees") cs["entry"] = rng.chance(500) ? "approx_signed" : "approx_fvs_trees";
         Json cfg = Json::object(); cfg["k"] = k; cs["cfg"] = cfg;
         Json cmin = Json::object(); cmin["k"] = (k == 0 ? 0 : 1); cs["cfg_min"] = cmin;
         Json lay = Json::array(); lay.push(rng.chance(250) ? 0LL : (long long) (rng.next() >> 2)); cs["layouts"] = lay;
